@@ -187,6 +187,9 @@ func registerIntrinsics() {
 		return nil
 	})
 	reg("vPreemptions", func(fr *frame, a []value) value { return fr.i.sched.preemptions })
+	reg("vInconclusive", func(fr *frame, a []value) value {
+		panic(engineAbort{abInconclusive, "harness: " + a[0].(string)})
+	})
 	reg("vStop", func(fr *frame, a []value) value {
 		panic(engineAbort{abStop, "harness stopped the path: " + a[0].(string)})
 	})
